@@ -3,7 +3,7 @@
 //! chunkings of the byte stream.
 //!
 //! `io c14 gen --seed S --n N --tier T`   well-formed files (random record lists printed by the
-//!                                        canonical printers re-implemented below) x 9 chunkings
+//!                                        canonical printers re-implemented below) x 10 chunkings (one with Interrupted events)
 //! `io c15 gen --seed S --n N --tier T`   malformed inputs x 3 chunkings (fault scripts included)
 //! `io <any> run`                         stdin: input lines; stdout: `<line> => <observation>`
 //! `io selftest`                          facts about std/nom the Coq model relies on
@@ -800,6 +800,21 @@ fn gen_c14(seed: u64, n: usize, tier: &str) {
         let mut chunks: Vec<String> = ["cap:1", "cap:2", "cap:3", "cap:5", "cap:17", "cap:64", "cap:8192"].iter().map(|s| s.to_string()).collect();
         chunks.push(gen_chunks(&mut rng, len));
         chunks.push(gen_chunks(&mut rng, len));
+        // ErrorKind::Interrupted is retried by std's read_until / read_line: a stream that is interrupted
+        // now and then (in Reader::new, inside a record, at the end) must give the same records
+        {
+            let maxs = *rng.pick(&[3u64, 40, 700]);
+            let mut v: Vec<String> = (0..rng.range(2, 14)).map(|_| (1 + rng.below(maxs)).to_string()).collect();
+            for _ in 0..rng.range(1, 4) {
+                let at = rng.below(v.len() as u64 + 1) as usize;
+                v.insert(at, "Ei".to_string());
+            }
+            if rng.chance(1, 2) {
+                v.push((len + 1).to_string());
+                v.push("Ei".to_string());
+            }
+            chunks.push(format!("ev:{}", v.join(",")));
+        }
         let enc: Vec<String> = recs.iter().map(|(y, r)| rec_enc(y, r)).collect();
         println!(
             "g{} mode=c14 fmt={} abc={} post=2 pre={} suf={} chunks={} recs={}",
